@@ -114,8 +114,7 @@ Proof.
   { split; [left; reflexivity|]. right; auto. }
   apply orb_false_elim in UNS as [_ NZ]. apply N.eqb_neq in NZ.
   assert (NP : 0 < n) by (clear - NZ; lia).
-  cbn [s_risky] in NRK. rewrite HC in NRK. cbn [negb andb] in NRK.
-  rewrite (h_readat_spec _ _ _ _ W NP NRK). unfold spec_read, l_size. rewrite <- D.
+  rewrite (h_readat_spec _ _ _ _ W NP). unfold spec_read, l_size. rewrite <- D.
   destruct (len (l_data a) <? off); (split; [apply om_refl|right; auto]).
 Qed.
 
@@ -392,17 +391,35 @@ Proof.
   - apply IHForall2.
 Qed.
 
-(* ... but not every run does: after a rewind below fileOffset, a read across fileOffset returns
-   the stale file bytes "45" instead of the freshly appended "xy" *)
+(* sequences without a reopen are always clean: within one session the refinement is unconditional *)
+Definition no_reopen (ops : list op) : bool :=
+  forallb (fun o => match o with Reopen _ => false | _ => true end) ops.
+
+Lemma no_reopen_clean ops : forall s, no_reopen ops = true -> s_clean s ops = true.
+Proof.
+  induction ops as [|o ops IH]; intros s H; cbn [s_clean]; auto.
+  cbn [no_reopen forallb] in H. apply andb_prop in H as [H1 H2].
+  rewrite (IH _ H2), andb_true_r. destruct o; try reflexivity. discriminate.
+Qed.
+
+Theorem single_refines_log_session : forall p meta o ops,
+  opts_valid o = true -> no_reopen ops = true ->
+  Forall2 out_match (s_run (s_create p meta o) ops) (spec_run (log_init (zeros p) meta o) ops).
+Proof.
+  intros p meta o ops OV NR. apply single_refines_log_partial; auto. apply no_reopen_clean; auto.
+Qed.
+
+(* ... but not every run is clean: rewind below the flushed size, close, reopen: the file was never
+   truncated and Open takes the file end as the size *)
 Theorem single_refines_log_refuted : exists p meta o ops,
   opts_valid o = true /\
   ~ Forall2 out_match (s_run (s_create p meta o) ops) (spec_run (log_init (zeros p) meta o) ops).
 Proof.
   exists 0, [], (mko false 16 false false),
-    [Append [48;49;50;51;52;53;54;55;56;57]; Flush; SetOffset 4; Append [120;121]; ReadAt 6 0].
+    [Append [48;49;50;51;52;53;54;55;56;57]; Flush; SetOffset 4; Close; Reopen (mko false 16 false false); Size].
   split; [reflexivity|]. intros H.
-  assert (X : out_match (ORead [48;49;50;51;52;53] false) (ORead [48;49;50;51;120;121] false)).
-  { eapply (Forall2_nth _ _ _ 4%nat); [exact H| |]; vm_compute; reflexivity. }
+  assert (X : out_match (ON 10) (ON 4)).
+  { eapply (Forall2_nth _ _ _ 5%nat); [exact H| |]; vm_compute; reflexivity. }
   destruct X as [X|X]; discriminate X.
 Qed.
 
@@ -466,17 +483,17 @@ Proof.
   destruct W. splits; auto.
 Qed.
 
-(* ---------- rewind, append, flush, read back: holds in every reachable state ---------- *)
+(* ---------- rewind, append, read back: holds in every reachable state ---------- *)
 Lemma slice_app_exact a b : slice (a ++ b) (len a) (len a + len b) = b.
 Proof.
   rewrite slice_app_r by (clear; lia). rewrite N.sub_diag.
   replace (len a + len b - len a) with (len b) by (clear; lia). apply slice_all.
 Qed.
 
-Lemma rewind_append_flush_read s n bs off :
+Lemma rewind_append_read s n bs off :
   hwf (s_h s) (s_file s) ->
   s_run s [SetOffset n; Append bs] = [OOk; OApp off (len bs)] ->
-  s_run s [SetOffset n; Append bs; Flush; ReadAt (len bs) n] = [OOk; OApp n (len bs); OOk; ORead bs false].
+  s_run s [SetOffset n; Append bs; ReadAt (len bs) n] = [OOk; OApp n (len bs); ORead bs false].
 Proof.
   intros W H. cbn [s_run] in *. cbn [s_step] in *.
   destruct (h_setoffset (s_h s) n) as [h1 x1] eqn:E1.
@@ -484,7 +501,6 @@ Proof.
   destruct (h_append h1 (s_file s) bs) as [[h2 F2] x2] eqn:E2.
   cbn [s_h s_file s_meta] in *.
   assert (X1 : x1 = OOk) by congruence. assert (X2 : x2 = OApp off (len bs)) by congruence. clear H. subst x1 x2.
-  (* SetOffset succeeded: the handle is open and writable *)
   assert (HC : h_closed (s_h s) = false).
   { destruct (h_closed (s_h s)) eqn:HC; auto. unfold h_setoffset in E1. rewrite HC in E1. congruence. }
   assert (HR : h_ro (s_h s) = false).
@@ -506,18 +522,8 @@ Proof.
   { destruct (capmode h1 && (w <? len bs)); [discriminate|]. split; congruence. }
   destruct WW as [WW OFF]. rewrite WW, take_all in C2. subst off.
   assert (HC2 : h_closed h2 = false) by (destruct S2; congruence).
-  assert (HR2 : h_ro h2 = false) by (destruct S2; congruence).
-  unfold h_flush_op. rewrite HC2, HR2.
-  destruct (h_flush h2 F2) as [h3 F3] eqn:E3. cbn [s_h s_file s_meta].
-  destruct (h_flush_spec _ _ _ _ W2 E3) as (W3 & C3 & S3 & FO3 & _).
-  pose proof (len_content _ _ W2) as LC2.
-  assert (HC3 : h_closed h3 = false) by (destruct S3; congruence).
-  assert (FO : h_fo h3 = n + len bs).
-  { rewrite FO3, <- LC2, C2, len_app, <- O1, <- LC1. reflexivity. }
-  unfold h_readat. rewrite HC3.
-  assert (NRK : h_tail h3 F3 && (n <? h_fo h3) && (h_fo h3 <? n + len bs) = false).
-  { rewrite FO. rewrite N.ltb_irrefl. apply andb_false_r. }
-  rewrite (h_readat_spec _ _ _ _ W3 LB NRK). rewrite C3, C2.
+  unfold h_readat. rewrite HC2.
+  rewrite (h_readat_spec _ _ _ _ W2 LB). rewrite C2.
   unfold spec_read. rewrite len_app. rewrite LC1, O1.
   replace (n + len bs <? n) with false by (symmetry; apply N.ltb_ge; clear; lia).
   replace (N.min (len bs) (n + len bs - n)) with (len bs) by (clear; lia).
@@ -528,15 +534,15 @@ Proof.
   rewrite SL. reflexivity.
 Qed.
 
-(* whenever a SetOffset n and an Append bs succeed — in ANY reachable state, stale tail or not —
-   the append lands at offset n and, once flushed, reading |bs| bytes at n returns bs *)
-Theorem single_rewind_then_append_overwrites_flushed : forall p meta o ops n bs off,
+(* whenever a SetOffset n and an Append bs succeed — in ANY reachable state, stale tail or not,
+   flushed or still buffered — the append lands at offset n and reading |bs| bytes at n returns bs *)
+Theorem single_rewind_then_append_overwrites : forall p meta o ops n bs off,
   opts_valid o = true ->
   let s := s_state (s_create p meta o) ops in
   s_run s [SetOffset n; Append bs] = [OOk; OApp off (len bs)] ->
-  s_run s [SetOffset n; Append bs; Flush; ReadAt (len bs) n] = [OOk; OApp n (len bs); OOk; ORead bs false].
+  s_run s [SetOffset n; Append bs; ReadAt (len bs) n] = [OOk; OApp n (len bs); ORead bs false].
 Proof.
-  intros p meta o ops n bs off OV s H. apply (rewind_append_flush_read s n bs off); auto.
+  intros p meta o ops n bs off OV s H. apply (rewind_append_read s n bs off); auto.
   apply s_state_wf. apply s_create_wf. exact OV.
 Qed.
 
@@ -544,19 +550,6 @@ Example single_rewind_premise_example :
   s_run (s_state (s_create 0 [] (mko false 4 false false)) [Append [1;2;3;4;5;6;7;8;9;10]; Flush])
         [SetOffset 2; Append [11;12;13;14;15;16]] = [OOk; OApp 2 (len [11;12;13;14;15;16])].
 Proof. vm_compute. reflexivity. Qed.
-
-(* without the Flush it is false: rewind below fileOffset, append more than the buffer holds (part of
-   it is flushed, part stays buffered), read it back at once: stale file bytes *)
-Theorem single_rewind_then_append_overwrites_refuted : exists p meta o ops n bs,
-  opts_valid o = true /\
-  let s := s_state (s_create p meta o) ops in
-  s_run s [SetOffset n; Append bs] = [OOk; OApp n (len bs)] /\
-  s_run s [SetOffset n; Append bs; ReadAt (len bs) n] <> [OOk; OApp n (len bs); ORead bs false].
-Proof.
-  exists 0, [], (mko false 4 false false), [Append [48;49;50;51;52;53;54;55;56;57]; Flush], 2,
-    [97;98;99;100;101;102].
-  split; [reflexivity|]. cbn zeta. split; [vm_compute; reflexivity|]. vm_compute. intros H. discriminate H.
-Qed.
 
 (* ---------- reopen ---------- *)
 Lemma flushed_state s :
@@ -600,9 +593,7 @@ Proof.
   split.
   - unfold h_readat. rewrite HC. change (h_closed (h_open (s_file s1) (ro_nobuf o'))) with false. cbn iota.
     rewrite (h_readat_spec _ _ _ _ WO NP), (h_readat_spec _ _ _ _ W NP).
-    + rewrite CO, C1. reflexivity.
-    + unfold h_tail. replace (h_fo (s_h s1) <? len (s_file s1)) with false by (symmetry; apply N.ltb_ge; exact NT). reflexivity.
-    + unfold h_tail, h_open; cbn [h_fo]. rewrite N.ltb_irrefl. reflexivity.
+    rewrite CO, C1. reflexivity.
   - unfold h_size. rewrite HC. change (h_closed (h_open (s_file s1) (ro_nobuf o'))) with false. cbn iota.
     rewrite <- LO, <- L1, CO, C1. reflexivity.
 Qed.
